@@ -74,7 +74,18 @@ let run_kind (read : Machine.mode -> n list -> TexCommon.texture list Machine.ou
   let w = one Machine.Wrapping in
   if c = w then c else c ^ " || " ^ w
 
-let () = register "ctpk" (run_kind Ctpk.read_ctpk TexFormat.conforms_ctpkb)
+(* A-codec table check: bitmap of sjis_encoded over all single bytes and all two-byte strings (see k_ctpk.rs) *)
+let codec_bitmap () : string =
+  let b = Buffer.create 17000 in
+  let cur = ref 0 and cnt = ref 0 in
+  let push (x : bool) =
+    cur := (!cur lsl 1) lor (if x then 1 else 0); incr cnt;
+    if !cnt = 4 then (Buffer.add_string b (Printf.sprintf "%x" !cur); cur := 0; cnt := 0) in
+  for x = 0 to 255 do push (TexCommon.sjis_encoded [n_of_int x]) done;
+  for l = 0 to 255 do for t = 0 to 255 do push (TexCommon.sjis_encoded [n_of_int l; n_of_int t]) done done;
+  Buffer.contents b
+
+let () = register "ctpk" (fun toks -> match toks with ["codec"] -> codec_bitmap () | _ -> run_kind Ctpk.read_ctpk TexFormat.conforms_ctpkb toks)
 let () = register "bch" (run_kind Bch.read_bch TexFormat.conforms_bchb)
 let () = register "cgfx" (run_kind Cgfx.read_cgfx TexFormat.conforms_cgfxb)
 let () = register "tpl" (run_kind Tpl.read_tpl TexFormat.conforms_tplb)
